@@ -231,7 +231,7 @@ TEXT_ASSUME = ["regular expressions: pinned CPython parse trees run by the Lean 
 
 def text_prop(mod, scopes):
     # Props.SrcLines (C12-C15): the per-line loop of anonymize_io as translated from the source text on this run
-    extra = ["Netconan.Props.SrcLines"] if mod in ("C12", "C13", "C14", "C15") else []
+    extra = ["Netconan.Props.SrcLines", "Netconan.Props.SrcFull"] if mod in ("C12", "C13", "C14", "C15") else []
     return {"modules": ["Netconan.Props." + mod] + extra, "scopes": scopes,
             "checker_cmd": "cd lean && lake build Netconan.Props.%s && lake env lean <#print axioms audit>" % mod,
             "rule": TEXT_RULE, "assumptions": TEXT_ASSUME}
